@@ -552,7 +552,7 @@ impl Monitor for C09 {
         }
         let mut xot = Xot::new();
         let route = *rng.pick(&ROUTES);
-        let style = *rng.pick(&[AttrStyle::Map, AttrStyle::Node, AttrStyle::Any]);
+        let style = *rng.pick(&crate::build::STYLES);
         let built = match guard(|| build::build(&mut xot, &a, route, style)) {
             Ok(Ok(h)) => h,
             _ => {
